@@ -863,6 +863,21 @@ func (g *vgen) step() {
 		if g.last[n] > g.first[n] && !g.impl.nodes[n].pending {
 			idx := g.first[n] + uint64(r.Intn(int(g.last[n]-g.first[n])))
 			t := g.readStored(n, idx)
+			if cp, _ := isCPFn(t); t != nil && cp && len(t.Extensions) >= 24 && idx != 1 && g.dirty[n][idx] == "" && r.Chance(1, 2) {
+				// a stored checkpoint entry is the first entry of the range the NEXT checkpoint closes: its Extensions (the
+				// verifier's own metadata: magic, start index, sum) are part of what the leader checksummed. Damage that
+				// keeps the magic and the length — one bit of the start index or of the sum
+				c := cloneLog(t)
+				c.Extensions[8+r.Intn(len(c.Extensions)-8)] ^= 1 << uint(r.Intn(8))
+				g.do(fmt.Sprintf("corrupt %d %d %s", n, idx, logTok(c)))
+				if g.dirty[n] == nil {
+					g.dirty[n] = map[uint64]string{}
+				}
+				g.dirty[n][idx] = "atrest"
+				g.tags["atrest-corruption"] = true
+				g.tags["atrest-checkpoint-meta"] = true
+				return
+			}
 			if cp, _ := isCPFn(t); t != nil && !cp && idx != 1 && g.dirty[n][idx] == "" {
 				g.do(fmt.Sprintf("corrupt %d %d %s", n, idx, logTok(g.mutate(t))))
 				if g.dirty[n] == nil {
